@@ -82,6 +82,8 @@ struct World17 {
     waited_then_served: u64,
     ends: std::collections::BTreeMap<String, u64>,
     accept_errors: u64,
+    listeners: usize,
+    listener_seed: u64,
 }
 
 impl World17 {
@@ -154,7 +156,9 @@ impl World17 {
         match st {
             Step17::Open => {
                 let i = self.clients.len();
-                let ok = self.ring.connect(i);
+                // the simulator decides which of the SO_REUSEPORT listeners gets the connection
+                let l = if self.listeners > 1 { (crate::rng::mix(&[self.listener_seed, i as u64]) % self.listeners as u64) as usize } else { 0 };
+                let ok = self.ring.connect_to(i, l);
                 self.clients.push(Client17 {
                     id: i,
                     open: ok,
@@ -422,9 +426,11 @@ impl Check for C17 {
     }
     fn generate(&self, run_seed: u64, _index: u64, tier: Tier) -> Case {
         let (knobs, steps) = gen_c17(run_seed, tier);
+        // one run in three has 2-3 accept loops sharing the semaphore (current-thread mode's shape)
+        let listeners = *Rng::sub(run_seed, "listeners").pick(&[1u64, 1, 1, 1, 2, 3]);
         Case {
             kind: "C17".into(),
-            data: json!({"knobs": knobs.to_json(), "steps": steps.iter().map(step_json).collect::<Vec<_>>()}),
+            data: json!({"knobs": knobs.to_json(), "listeners": listeners, "steps": steps.iter().map(step_json).collect::<Vec<_>>()}),
         }
     }
     fn execute(&self, case: &Case) -> Outcome {
@@ -433,8 +439,9 @@ impl Check for C17 {
             std::process::exit(2)
         });
         let steps: Vec<Step17> = case.data["steps"].as_array().map(|a| a.iter().filter_map(step_from).collect()).unwrap_or_default();
+        let listeners = case.data.get("listeners").and_then(|v| v.as_u64()).unwrap_or(1) as usize;
         let mut w = World17 {
-            ring: RingN::new(&knobs),
+            ring: RingN::with_listeners(&knobs, listeners),
             clients: Vec::new(),
             limit: knobs.conn_limit as usize,
             timeout_ms: knobs.timeout_secs as u64 * 1000,
@@ -447,6 +454,8 @@ impl Check for C17 {
             waited_then_served: 0,
             ends: Default::default(),
             accept_errors: 0,
+            listeners,
+            listener_seed: knobs.hash_seed,
         };
         for s in &steps {
             w.step(s);
@@ -466,6 +475,7 @@ impl Check for C17 {
         out.count("runs_with_connection_waiting_for_slot", (w.max_waiting > 0) as u64);
         out.count("waiting_connection_picked_up", w.waited_then_served);
         out.count("accept_errors_injected", w.accept_errors);
+        out.count("runs_with_several_listeners", (listeners > 1) as u64);
         for (k, v) in &w.ends {
             out.count(&format!("end:{}", k), *v);
         }
@@ -488,7 +498,7 @@ impl Check for C17 {
                 // indices of clients shift when an Open is removed: renumber
                 out.push(Case {
                     kind: "C17".into(),
-                    data: json!({"knobs": case.data["knobs"], "steps": renumber(&steps, start, end)}),
+                    data: json!({"knobs": case.data["knobs"], "listeners": case.data.get("listeners").cloned().unwrap_or(json!(1)), "steps": renumber(&steps, start, end)}),
                 });
                 if start == 0 {
                     break;
